@@ -100,23 +100,16 @@ Valid(p) == DeclsValid(p.vars, 1, <<>>) /\ \A i \in 1..Len(p.stmts) : StmtValid(
 
 \* ---- name diagnostics from the pre-order node list --------------------------------
 \* nodes: sequence of [kind, name, f, l]; walk in order (= textual order = the order declarations and uses are met)
-RECURSIVE NameWalk(_,_,_,_,_)
-\* declared: set of names; used: set of names; acc: sequence of <<kind, node index>>
-NameWalk(nodes, i, declared, used, acc) ==
-  IF i > Len(nodes) THEN [declared |-> declared, used |-> used, acc |-> acc]
-  ELSE LET nd == nodes[i] IN
-       IF nd.kind = "DeclName" THEN
-          IF nd.name \in declared THEN NameWalk(nodes, i + 1, declared, used, Append(acc, <<"DuplicateVariable", i>>))
-          ELSE NameWalk(nodes, i + 1, declared \cup {nd.name}, used, acc)
-       ELSE IF nd.kind = "Variable" THEN
-          \* a use before (or without) a declaration refers to nothing: it is unbound and does not count as a use
-          IF nd.name \in declared THEN NameWalk(nodes, i + 1, declared, used \cup {nd.name}, acc)
-          ELSE NameWalk(nodes, i + 1, declared, used, Append(acc, <<"UnboundVariable", i>>))
-       ELSE NameWalk(nodes, i + 1, declared, used, acc)
-FirstDecl(nodes, nm) == CHOOSE i \in 1..Len(nodes) : nodes[i].kind = "DeclName" /\ nodes[i].name = nm
-                                                      /\ \A j \in 1..(i - 1) : ~(nodes[j].kind = "DeclName" /\ nodes[j].name = nm)
-\* set of <<kind, node index>>; duplicates cannot occur (one diagnostic per token)
+\* (stated without recursion over the node list: long scripts would overflow TLC's evaluation stack)
+IsDeclAt(nodes, j, nm) == nodes[j].kind = "DeclName" /\ nodes[j].name = nm
+DeclaredBefore(nodes, i, nm) == \E j \in 1..(i - 1) : IsDeclAt(nodes, j, nm)
+FirstDecl(nodes, nm) == CHOOSE i \in 1..Len(nodes) : IsDeclAt(nodes, i, nm) /\ ~DeclaredBefore(nodes, i, nm)
+DeclaredNames(nodes) == {nodes[i].name : i \in {j \in 1..Len(nodes) : nodes[j].kind = "DeclName"}}
+\* a use before (or without) a declaration refers to nothing: it is unbound and does not count as a use
+UsedAfterDecl(nodes, nm) == \E i \in 1..Len(nodes) : nodes[i].kind = "Variable" /\ nodes[i].name = nm /\ DeclaredBefore(nodes, i, nm)
+\* set of <<kind, node index>>; one diagnostic per token
 NameDiagSet(nodes) ==
-  LET w == NameWalk(nodes, 1, {}, {}, <<>>) IN
-  {w.acc[k] : k \in 1..Len(w.acc)} \cup {<<"UnusedVar", FirstDecl(nodes, nm)>> : nm \in w.declared \ w.used}
+     {<<"DuplicateVariable", i>> : i \in {j \in 1..Len(nodes) : nodes[j].kind = "DeclName" /\ DeclaredBefore(nodes, j, nodes[j].name)}}
+  \cup {<<"UnboundVariable", i>> : i \in {j \in 1..Len(nodes) : nodes[j].kind = "Variable" /\ ~DeclaredBefore(nodes, j, nodes[j].name)}}
+  \cup {<<"UnusedVar", FirstDecl(nodes, nm)>> : nm \in {x \in DeclaredNames(nodes) : ~UsedAfterDecl(nodes, x)}}
 =============================================================================
